@@ -49,31 +49,42 @@ Proof.
   eapply not_expired_at_handout; eauto.
 Qed.
 
-(** The issue memory stays within its configured size (or 1 if that is 0): both the map and
-    the FIFO, for every history -- in particular for one issue re-reported for hours. *)
+(** The issue memory stays bounded by its configured size: the map holds at most
+    max(size, 1) issues and the FIFO (which keeps the stale entries of re-reported issues
+    until it is compacted) at most twice that -- for every history, in particular for one issue
+    re-reported for hours.  Underlying invariant ([Proofs_C06.IMInv]): every FIFO entry's issue is
+    cached, the last FIFO entry of an issue is live and every earlier one stale, every cached
+    issue has an entry -- so the eviction loop always makes room.
+    Premise: a positive deduplication window (then an accepted re-report carries a strictly
+    later timestamp than the cached one, whatever the clock does). *)
 Theorem issue_memory_bounded :
   forall (c : cfg) (t0 : N) (evs : list ev),
+    0 < c_dedup c ->
     let im := s_im (run pol decay c (init_st c t0) evs) in
     N.of_nat (length (im_cache im)) <= N.max (c_issue_size c) 1 /\
-    N.of_nat (length (im_fifo im)) <= N.max (c_issue_size c) 1.
+    N.of_nat (length (im_fifo im)) <= 2 * N.max (c_issue_size c) 1.
 Proof.
-  intros c t0 evs im.
-  destruct (run_im pol decay c evs (init_st c t0) (init_im c t0)) as [I B]. fold im in I, B.
-  pose proof (imi_len _ I) as L. unfold ibound in B. lia.
+  intros c t0 evs D im.
+  destruct (run_im pol decay c evs D (init_st c t0) (init_im c t0)) as (I & B & Bf). fold im in I, B, Bf.
+  unfold ibound in B, Bf. lia.
 Qed.
 
 (** None of the worker's debug assertions / expects is reachable, in any history: the active
     slot's fingerprint is always cached (decide_active_path_update, merge_new_paths_algo), every
     FIFO id is in the issue map (pop_front), and a successful lookup that leaves the cache empty
     is handled (the former expect in fetch_and_update).  In particular the worker task never
-    dies on a panic, so senders never wait for a lookup that cannot complete. *)
+    dies on a panic, so senders never wait for a lookup that cannot complete.
+    (Premise as for [issue_memory_bounded]: with a zero deduplication window two reports of one
+    issue with the same timestamp leave two live FIFO entries, and pop_front's debug assertion
+    "issue ID not found in cache" is reachable -- as in the unrepaired code.) *)
 Theorem worker_never_panics :
   forall (c : cfg) (t0 : N) (evs : list ev),
+    0 < c_dedup c ->
     let s := run pol decay c (init_st c t0) evs in
     s_panic s = None /\
     (forall a, s_active s = Some a -> exists e, In e (s_cached s) /\ e_fp e = p_fp a).
 Proof.
-  intros c t0 evs s. destruct (run_NP pol decay c evs (init_st c t0) (init_NP c t0)) as (A & _ & P).
+  intros c t0 evs D s. destruct (run_NP pol decay c evs D (init_st c t0) (init_NP c t0)) as (A & _ & P).
   split; [exact P|exact A].
 Qed.
 
@@ -119,7 +130,7 @@ Print Assumptions handed_out_not_expired.
 Print Assumptions issue_memory_bounded.
 
 (** non-vacuity: the validator accepts the default configuration; one issue re-reported twelve
-    times 11 s apart keeps one map entry and one FIFO entry; a path that expires between two
+    times 11 s apart keeps one map entry and (default size 100) twelve FIFO entries; a path that expires between two
     ticks is not handed out after its expiry *)
 Example default_config_valid : cfg_valid (default_cfg 1 2) = true.
 Proof. reflexivity. Qed.
@@ -127,7 +138,7 @@ Example rereport_keeps_one :
   let c := default_cfg 1 2 in
   let evs := map (fun k => Report (11000000000 * k) (IInterfaceDown 10 3)) [0;1;2;3;4;5;6;7;8;9;10;11] in
   let im := s_im (run (fun _ => Some true) (fun b _ _ => b) c (init_st c 0) evs) in
-  (length (im_cache im), length (im_fifo im)) = (1%nat, 1%nat).
+  (length (im_cache im), length (im_fifo im)) = (1%nat, 12%nat).
 Proof. vm_compute. reflexivity. Qed.
 Example expiry_between_ticks :
   let p := mkPath 0 0 1 2 (Some 301) None None None 3 in
